@@ -4,6 +4,7 @@ import random
 
 from .. import covariance_eval as ce
 from .. import machine_eval as me
+from .. import prism_eval
 from ..placement import fl, palette
 from ..pool import pmap
 
@@ -14,7 +15,11 @@ RULE = ("spec/Placement.tla states, per observable kind (length, area, volume, p
         "table to EVERY public observable (by reflection) of every class: the shape built from transformed (and relabelled) "
         "coordinates must show Law_g of what the shape built from the original coordinates shows - rational and random proper "
         "rotations, offsets up to ten diameters, scales 1e-3..1e3, vertex permutations / face shifts, mapped containment "
-        "queries and form factors; distinct = (class, base, transformation)")
+        "queries and form factors; spec/Prism3.tla adds right prisms over named (comb, saw, spiral, zig-zag, star ...) and grown "
+        "non-convex lattice polygons whose caps are single non-convex faces, with exact volume, centroid, inertia tensor and "
+        "membership (T1: divergence-theorem sums over the surface triangles = Fubini from the polygon's exact moments), "
+        "replayed as Polyhedron for EVERY start vertex of the cap faces under rational placements; "
+        "distinct = (class, base, transformation) / (prism, placement, cap shifts)")
 
 CLASSES = ["ConvexPolyhedron", "Polyhedron", "ConvexSpheropolyhedron", "Polygon", "ConvexPolygon", "ConvexSpheropolygon",
            "Circle", "Ellipse", "Sphere", "Ellipsoid"]
@@ -61,6 +66,16 @@ def run(ctx):
             d["job"] = {k: v for k, v in detail["job"].items() if k != "kind"}
             ctx.violation(sig, d)
     ctx.extra["observables_not_in_law_table"] = sorted(uncl)
+    # relabelling of faces with many reflex corners: prisms over named and grown non-convex lattice polygons (spec/Prism3.tla),
+    # every start vertex of the cap faces, against the exact values (which do not depend on the labelling)
+    prism_eval.t1(ctx, 8, 0, "Named", [1, 3])
+    if not quick:
+        prism_eval.t1(ctx, 3, 6, None, [2], relabel=True)
+    precs = prism_eval.emit(ctx, 8, 0, "NamedSmall" if quick else "Named", [2] if quick else [1, 3])
+    grown = prism_eval.emit(ctx, 4, 10, "Tri0", [1], simulate=2 if quick else 12, depth=9)
+    precs += prism_eval.pick(grown, 10 if quick else 150, ctx.seed)
+    ctx.extra["prisms"] = len(precs)
+    prism_eval.replay(ctx, prism_eval.build_cases(precs, ctx.tier, ctx.seed))
     ctx.exhaustive = False
     return ctx.finish(rule=RULE, assumptions=[
         "metamorphic relation between two runs of the implementation; the exact values themselves are bound by C01-C06, C10-C14",
